@@ -7,7 +7,7 @@ git -C /repo worktree add -q --detach $WT HEAD || exit 9
 bad=0
 for p in /verif/selftest/harmless/*.diff; do
   cd $WT && git checkout -q -- . && git apply "$p" 2>/dev/null || { echo "$(basename $p): does not apply to HEAD (skipped)"; continue; }
-  for u in walk flex vec io_blocking io_async portable_ops; do
+  for u in walk flex flexmut vec io_blocking io_async portable_ops; do
     out=$(cd /verif && python3 tools/unit.py $u --repo $WT 2>&1 | grep -E "^(verified=|ERR|LOST|TOOL)" | head -2)
     case "$out" in
       verified=*" failed=0 "*) ;;
